@@ -34,14 +34,20 @@ struct Cfg {
     max_step_fraction: f64,
     backtrack: f64,
     verbose: bool,
+    tight: f64,
 }
 impl Cfg {
     fn default() -> Self {
         Cfg { max_iter: 200, time_limit: f64::INFINITY, equilibrate: true, presolve: true, static_reg: true,
-              method: "qdldl".into(), max_step_fraction: 0.99, backtrack: 0.8, verbose: true }
+              method: "qdldl".into(), max_step_fraction: 0.99, backtrack: 0.8, verbose: true, tight: 0.0 }
     }
     fn settings(&self) -> DefaultSettings<f64> {
+        let d = DefaultSettings::<f64>::default();
+        let t = |x: f64| if self.tight > 0.0 { self.tight } else { x };
         DefaultSettings {
+            tol_feas: t(d.tol_feas),
+            tol_gap_abs: t(d.tol_gap_abs),
+            tol_gap_rel: t(d.tol_gap_rel),
             verbose: self.verbose,
             max_iter: self.max_iter,
             time_limit: self.time_limit,
@@ -64,12 +70,13 @@ impl Cfg {
         if let Some(x) = v.get("method").and_then(|x| x.as_str()) { c.method = x.to_string(); }
         if let Some(x) = v.get("max_step_fraction").and_then(|x| x.as_f64()) { c.max_step_fraction = x; }
         if let Some(x) = v.get("backtrack").and_then(|x| x.as_f64()) { c.backtrack = x; }
+        if let Some(x) = v.get("tight").and_then(|x| x.as_f64()) { c.tight = x; }
         c
     }
     fn json(&self) -> Value {
         json!({"max_iter": self.max_iter, "time_limit": if self.time_limit.is_finite() { json!(self.time_limit) } else { json!("inf") },
                "equilibrate": self.equilibrate, "presolve": self.presolve, "static_reg": self.static_reg, "method": self.method,
-               "max_step_fraction": self.max_step_fraction, "backtrack": self.backtrack, "verbose": self.verbose})
+               "max_step_fraction": self.max_step_fraction, "backtrack": self.backtrack, "verbose": self.verbose, "tight": self.tight})
     }
 }
 
@@ -473,6 +480,25 @@ fn main() {
         probs.push((p, c));
     }
 
+    // unreachable tolerances: the solve stalls, rolls back (insufficient progress) and, with
+    // nonsymmetric cones under primal-dual scaling, switches strategy and continues
+    if !replaying {
+        let ntight = if thorough { 120 } else { 36 };
+        for k in 0..ntight {
+            let kinds: &[u8] = if k % 3 == 0 { &[1, 2] } else { &[3, 4, 3, 4, 1, 2] };
+            let ncones = 1 + rng.below(2);
+            let mut cones: Vec<_> = (0..ncones).map(|_| random_cone(&mut rng, kinds)).collect();
+            if k % 3 != 0 && !cones.iter().any(|c| matches!(c, ExponentialConeT() | PowerConeT(_))) { cones.push(ExponentialConeT()); }
+            let m: usize = cones.iter().map(cone_dim).sum();
+            let n = (1 + rng.below(4)).min(m);
+            let pk = rng.below(3);
+            let p = planted(&mut rng, n, cones, pk);
+            let mut c = Cfg::default();
+            c.tight = *rng.pick(&[1e-12, 1e-13, 1e-14, 1e-16]);
+            probs.push((p, c));
+        }
+    }
+
     // ------------------------------------------------------------ traced solves
     let mut longruns: Vec<(Prob, Cfg, Outcome)> = vec![];
     for (p, cfg) in probs.iter() {
@@ -492,6 +518,19 @@ fn main() {
             }
             RunResult::Done(o) => {
                 bump(&mut stats, &format!("status_{}", o.status));
+                for e in o.events.iter() {
+                    match e {
+                        Event::Ck { kind, code } => bump(&mut stats, &format!("branch_ck{}_{}", kind, code)),
+                        Event::Rollback => bump(&mut stats, "branch_rollback"),
+                        Event::ExtraLine { .. } => bump(&mut stats, "branch_extra_line"),
+                        Event::Scale { ok: false, .. } => bump(&mut stats, "branch_scale_failed"),
+                        Event::Kkt { ok: false } => bump(&mut stats, "branch_kkt_update_failed"),
+                        Event::Aff { ok: false } => bump(&mut stats, "branch_affine_failed"),
+                        Event::Comb { ok: false } => bump(&mut stats, "branch_combined_failed"),
+                        Event::Post { status_in, status_out } if status_in != status_out => bump(&mut stats, "branch_post_almost"),
+                        _ => {}
+                    }
+                }
                 let evs = coq_events(&o.events);
                 let margs = model_args(&o, cfg.max_iter);
                 // C04: control flow and final report
